@@ -10,7 +10,7 @@ use petgraph::graphmap::GraphMap;
 use petgraph::matrix_graph::MatrixGraph;
 use petgraph::stable_graph::StableGraph;
 use petgraph::visit::{
-    Data, EdgeCount, EdgeRef, GraphProp, IntoEdges, IntoEdgesDirected, IntoNeighbors, IntoNeighborsDirected,
+    Data, EdgeCount, EdgeRef, GraphProp, IntoEdgeReferences, IntoEdges, IntoEdgesDirected, IntoNeighbors, IntoNeighborsDirected,
     IntoNodeIdentifiers, NodeIndexable, Visitable,
 };
 use petgraph::{Direction, EdgeType};
@@ -160,7 +160,7 @@ pub fn build_matrix<Ty: EdgeType, Ix: petgraph::graph::IndexType>(a: &AbsGraph, 
 /// out-lists only (types without IntoEdgesDirected)
 pub fn dump_view_out<G, F>(g: G, eid: F, ecount: usize, ebound: usize, extra_hdr: &[i64]) -> (Vec<i64>, Vec<GOp>)
 where
-    G: IntoNodeIdentifiers + IntoEdges + IntoNeighbors + NodeIndexable + Visitable + GraphProp + Data<EdgeWeight = i64>,
+    G: IntoNodeIdentifiers + IntoEdges + IntoNeighbors + IntoEdgeReferences + NodeIndexable + Visitable + GraphProp + Data<EdgeWeight = i64>,
     G::Map: VCap,
     F: Fn(G::EdgeRef) -> usize,
 {
@@ -176,13 +176,16 @@ where
         if nb != tg { ops.push(("neighbors_edges_mismatch".into(), vec![g.to_index(a) as i64])); }
         ops.push(("out".into(), v));
     }
+    let mut er = Vec::new();
+    for e in g.edge_references() { er.extend_from_slice(&[eid(e) as i64, g.to_index(e.source()) as i64, g.to_index(e.target()) as i64, *e.weight()]); }
+    ops.push(("erefs".into(), er));
     (hdr, ops)
 }
 
 /// out- and in-lists
 pub fn dump_view<G, F>(g: G, eid: F, ecount: usize, ebound: usize, extra_hdr: &[i64]) -> (Vec<i64>, Vec<GOp>)
 where
-    G: IntoNodeIdentifiers + IntoEdgesDirected + IntoNeighborsDirected + NodeIndexable + Visitable + GraphProp + Data<EdgeWeight = i64>,
+    G: IntoNodeIdentifiers + IntoEdgesDirected + IntoNeighborsDirected + IntoEdgeReferences + NodeIndexable + Visitable + GraphProp + Data<EdgeWeight = i64>,
     G::Map: VCap,
     F: Fn(G::EdgeRef) -> usize,
 {
